@@ -250,6 +250,8 @@ def run_sim(spec):
 
 def dispatch(spec):
     kind = spec.get('cmd', 'sim')
+    if kind == 'focus_list':
+        return {'fns': pick_focus(spec)}
     if kind == 'ref':
         return run_ref(spec)
     if kind == 'sim':
